@@ -1,12 +1,11 @@
 /-
-  Helper lemmas for C19 (SA.Model.Wrappers).
+  Helper lemmas for C19 (SA.Model.Wrappers).  Everything about `closedQG`/`closeG`/… is proved for
+  the connective `true` (`&&`); SA.Props.C19 transfers it to the model of the code through the
+  regenerated fact `SA.Gen.c19PairClosedAnd` (definitional unfolding — it stops type-checking
+  when the fact changes).
 -/
 import SA.Model.Wrappers
 namespace SA.Wrappers
-
-def isRes : W → Bool
-  | .res .. => true
-  | _ => false
 
 /-- every flag false, every count 0 -/
 def Fresh : W → Prop
@@ -29,104 +28,468 @@ def Guarded : W → Prop
   | .deleg i => Guarded i
   | .pair r w => Guarded r ∧ Guarded w
 
-theorem fresh_closedQ {w : W} (hg : Guarded w) (hf : Fresh w) : closedQ w = some false := by
-  induction w with
-  | res => exact hg.elim
-  | safe k flag i _ => simp [closedQ, hf.1]
-  | deleg i ih => exact ih hg hf
-  | pair r w ihr ihw =>
-    simp [closedQ, ihr hg.1 hf.1]
+/-- a bare resource, or guarded -/
+def RG (w : W) : Prop := isRes w = true ∨ Guarded w
 
-theorem done_closedQ {w : W} (hg : Guarded w) (hd : Done w) : closedQ w = some true := by
+/-- "if it is a bare resource, it has not been closed" -/
+def cnt0 : W → Prop
+  | .res _ _ _ c => c = 0
+  | _ => True
+
+/-- the invariant of every reachable state: no count above 1; a set flag means the whole subtree
+    is closed; a bare resource under a wrapper whose flag is not set has not been closed -/
+def Inv : W → Prop
+  | .res _ _ _ c => c ≤ 1
+  | .safe _ fl i => Inv i ∧ (fl = true → Done i) ∧ (fl = false → cnt0 i)
+  | .deleg i => Inv i
+  | .pair r w => Inv r ∧ Inv w
+
+/-- same shape, flags only get set, counts only grow -/
+def Le : W → W → Prop
+  | .res id h f c, .res id' h' f' c' => id = id' ∧ h = h' ∧ f = f' ∧ c ≤ c'
+  | .safe k fl i, .safe k' fl' i' => k = k' ∧ (fl = true → fl' = true) ∧ Le i i'
+  | .deleg i, .deleg i' => Le i i'
+  | .pair r w, .pair r' w' => Le r r' ∧ Le w w'
+  | _, _ => False
+
+theorem cnt0_of_not_res {w : W} (h : isRes w = false) : cnt0 w := by
+  cases w <;> simp [isRes] at h <;> trivial
+
+theorem guarded_not_res {w : W} (h : Guarded w) : isRes w = false := by
+  cases w <;> first | exact h.elim | rfl
+
+theorem cnt0_of_guarded {w : W} (h : Guarded w) : cnt0 w := cnt0_of_not_res (guarded_not_res h)
+
+theorem rg_not_res {w : W} (h : RG w) (hn : isRes w = false) : Guarded w := by
+  rcases h with h | h
+  · rw [hn] at h; cases h
+  · exact h
+
+/-! ### status query and close on a subtree -/
+
+theorem done_closedQ {w : W} (hg : Guarded w) (hd : Done w) : closedQG true w = some true := by
   induction w with
   | res => exact hg.elim
-  | safe k flag i _ => simp [closedQ, hd.1]
+  | safe k flag i _ => simp [closedQG, hd.1]
   | deleg i ih => exact ih hg hd
   | pair r w ihr ihw =>
-    simp [closedQ, ihr hg.1 hd.1, ihw hg.2 hd.2]
+    simp [closedQG, ihr hg.1 hd.1, ihw hg.2 hd.2]
 
-theorem done_close {w : W} (hg : Guarded w) (hd : Done w) : close w = (w, true) := by
+theorem done_close {w : W} (hg : Guarded w) (hd : Done w) : closeG true w = (w, true) := by
   induction w with
   | res => exact hg.elim
-  | safe k flag i _ => simp [close, hd.1]
-  | deleg i ih => simp [close, ih hg hd]
+  | safe k flag i _ => simp [closeG, hd.1]
+  | deleg i ih => simp [closeG, ih hg hd]
   | pair r w ihr ihw =>
-    simp [close, done_closedQ hg.1 hd.1, done_closedQ hg.2 hd.2]
+    simp [closeG, done_closedQ hg.1 hd.1, done_closedQ hg.2 hd.2]
 
-theorem close_guarded {w : W} (hg : Guarded w) : Guarded (close w).1 := by
+/-- **"reports closed ⇒ is closed"** on a subtree (this is what fails with `||`) -/
+theorem closedQ_true_done {w : W} (hi : Inv w) (hg : RG w) (h0 : cnt0 w)
+    (hq : closedQG true w = some true) : Done w := by
   induction w with
-  | res => exact hg.elim
-  | safe k flag i ih =>
-    simp only [close]
+  | res id h f c =>
+    have : c = 0 := h0
+    subst this
+    cases h <;> simp [closedQG] at hq
+  | safe k fl i _ =>
+    simp [closedQG] at hq
+    subst hq
+    exact ⟨rfl, hi.2.1 rfl⟩
+  | deleg i ih =>
+    have h := rg_not_res hg rfl
+    exact ih hi (Or.inr h) (cnt0_of_guarded h) hq
+  | pair r w ihr ihw =>
+    have h := rg_not_res hg rfl
+    simp [closedQG] at hq
+    exact ⟨ihr hi.1 (Or.inr h.1) (cnt0_of_guarded h.1) hq.1,
+           ihw hi.2 (Or.inr h.2) (cnt0_of_guarded h.2) hq.2⟩
+
+/-- closing any object in a reachable state leaves its whole subtree closed exactly once -/
+theorem close_done_inv {w : W} (hi : Inv w) (hg : RG w) (h0 : cnt0 w) :
+    Done (closeG true w).1 ∧ Inv (closeG true w).1 := by
+  induction w with
+  | res id h f c =>
+    have : c = 0 := h0
+    subst this
+    simp [closeG, Done, Inv]
+  | safe k fl i ih =>
+    have h : RG i := rg_not_res hg rfl
+    cases fl with
+    | true =>
+      have hd := hi.2.1 rfl
+      simp only [closeG]
+      exact ⟨⟨rfl, hd⟩, hi⟩
+    | false =>
+      have hc := hi.2.2 rfl
+      by_cases hq : closedQG true i = some true
+      · have hd := closedQ_true_done hi.1 h hc hq
+        simp only [closeG, hq]
+        exact ⟨⟨rfl, hd⟩, hi.1, fun _ => hd, fun e => by cases e⟩
+      · have hr := ih hi.1 h hc
+        simp only [closeG, hq]
+        exact ⟨⟨rfl, hr.1⟩, hr.2, fun _ => hr.1, fun e => by cases e⟩
+  | deleg i ih =>
+    have h := rg_not_res hg rfl
+    exact ih hi (Or.inr h) (cnt0_of_guarded h)
+  | pair r w ihr ihw =>
+    have h := rg_not_res hg rfl
+    have hr := ihr hi.1 (Or.inr h.1) (cnt0_of_guarded h.1)
+    have hw := ihw hi.2 (Or.inr h.2) (cnt0_of_guarded h.2)
+    simp only [closeG]
+    by_cases hq1 : closedQG true r = some true <;> by_cases hq2 : closedQG true w = some true
+    · have d1 := closedQ_true_done hi.1 (Or.inr h.1) (cnt0_of_guarded h.1) hq1
+      have d2 := closedQ_true_done hi.2 (Or.inr h.2) (cnt0_of_guarded h.2) hq2
+      simp only [hq1, hq2]
+      exact ⟨⟨d1, d2⟩, hi⟩
+    · have d1 := closedQ_true_done hi.1 (Or.inr h.1) (cnt0_of_guarded h.1) hq1
+      simp only [hq1, hq2]
+      exact ⟨⟨d1, hw.1⟩, hi.1, hw.2⟩
+    · have d2 := closedQ_true_done hi.2 (Or.inr h.2) (cnt0_of_guarded h.2) hq2
+      simp only [hq1, hq2]
+      exact ⟨⟨hr.1, d2⟩, hr.2, hi.2⟩
+    · simp only [hq1, hq2]
+      exact ⟨⟨hr.1, hw.1⟩, hr.2, hw.2⟩
+
+/-! ### the order `Le` -/
+
+theorem le_refl (w : W) : Le w w := by
+  induction w with
+  | res => simp [Le]
+  | safe k fl i ih => exact ⟨rfl, id, ih⟩
+  | deleg i ih => exact ih
+  | pair r w ihr ihw => exact ⟨ihr, ihw⟩
+
+theorem le_trans {a b c : W} (h1 : Le a b) (h2 : Le b c) : Le a c := by
+  induction a generalizing b c with
+  | res id h f n =>
+    cases b <;> try exact h1.elim
+    cases c <;> try exact h2.elim
+    simp only [Le] at h1 h2 ⊢
+    exact ⟨h1.1.trans h2.1, h1.2.1.trans h2.2.1, h1.2.2.1.trans h2.2.2.1, Nat.le_trans h1.2.2.2 h2.2.2.2⟩
+  | safe k fl i ih =>
+    cases b <;> try exact h1.elim
+    cases c <;> try exact h2.elim
+    exact ⟨h1.1.trans h2.1, fun e => h2.2.1 (h1.2.1 e), ih h1.2.2 h2.2.2⟩
+  | deleg i ih =>
+    cases b <;> try exact h1.elim
+    cases c <;> try exact h2.elim
+    exact ih h1 h2
+  | pair r w ihr ihw =>
+    cases b <;> try exact h1.elim
+    cases c <;> try exact h2.elim
+    exact ⟨ihr h1.1 h2.1, ihw h1.2 h2.2⟩
+
+theorem close_le (cj : Bool) (w : W) : Le w (closeG cj w).1 := by
+  induction w with
+  | res => simp [closeG, Le]
+  | safe k fl i ih =>
+    simp only [closeG]
     split
-    · exact hg
+    · exact le_refl _
     · split
-      · exact hg
-      · cases i with
-        | res => simp [close, Guarded, isRes]
-        | safe k' f' i' =>
-          rcases hg with h | h
-          · simp [isRes] at h
-          · exact Or.inr (ih h)
-        | deleg i' =>
-          rcases hg with h | h
-          · simp [isRes] at h
-          · exact Or.inr (ih h)
-        | pair a b =>
-          rcases hg with h | h
-          · simp [isRes] at h
-          · exact Or.inr (ih h)
-  | deleg i ih => exact ih hg
+      · exact ⟨rfl, fun _ => rfl, le_refl _⟩
+      · exact ⟨rfl, fun _ => rfl, ih⟩
+  | deleg i ih => exact ih
   | pair r w ihr ihw =>
-    simp only [close]
+    simp only [closeG]
     constructor
     · split
-      · exact hg.1
-      · exact ihr hg.1
+      · exact le_refl _
+      · exact ihr
     · split
-      · exact hg.2
-      · exact ihw hg.2
+      · exact le_refl _
+      · exact ihw
 
-/-- closing a fresh, guarded composition closes every resource exactly once -/
-theorem fresh_close_done {w : W} (hg : Guarded w) (hf : Fresh w) : Done (close w).1 := by
-  induction w with
-  | res => exact hg.elim
-  | safe k flag i ih =>
-    have hflag : flag = false := hf.1
-    subst hflag
-    cases i with
-    | res id h f c =>
-      have hc : c = 0 := hf.2
-      subst hc
-      by_cases hh : h = true <;> simp [close, closedQ, Done, hh]
-    | safe k' f' i' =>
-      rcases hg with h | h
-      · simp [isRes] at h
-      · have := fresh_closedQ h hf.2
-        simp only [close, this]
-        simp
-        exact ⟨rfl, ih h hf.2⟩
-    | deleg i' =>
-      rcases hg with h | h
-      · simp [isRes] at h
-      · have := fresh_closedQ h hf.2
-        simp only [close, this]
-        simp
-        exact ⟨rfl, ih h hf.2⟩
-    | pair a b =>
-      rcases hg with h | h
-      · simp [isRes] at h
-      · have := fresh_closedQ h hf.2
-        simp only [close, this]
-        simp
-        exact ⟨rfl, ih h hf.2⟩
-  | deleg i ih => exact ih hg hf
+theorem closeAt_le (cj : Bool) (w : W) (p : Path) : Le w (closeAtG cj w p).1 := by
+  induction w generalizing p with
+  | res =>
+    cases p with
+    | nil => exact close_le cj _
+    | cons b p => cases b <;> exact le_refl _
+  | safe k fl i ih =>
+    cases p with
+    | nil => exact close_le cj _
+    | cons b p =>
+      cases b
+      · exact ⟨rfl, id, ih p⟩
+      · exact le_refl _
+  | deleg i ih =>
+    cases p with
+    | nil => exact close_le cj _
+    | cons b p =>
+      cases b
+      · exact ih p
+      · exact le_refl _
   | pair r w ihr ihw =>
-    have h1 := fresh_closedQ hg.1 hf.1
-    have h2 := fresh_closedQ hg.2 hf.2
-    simp only [close, h1, h2]
-    simp
-    exact ⟨ihr hg.1 hf.1, ihw hg.2 hf.2⟩
+    cases p with
+    | nil => exact close_le cj _
+    | cons b p =>
+      cases b
+      · exact ⟨ihr p, le_refl _⟩
+      · exact ⟨le_refl _, ihw p⟩
+
+theorem le_isRes {w w' : W} (h : Le w w') : isRes w' = isRes w := by
+  cases w <;> cases w' <;> first | exact h.elim | rfl
+
+theorem le_guarded {w w' : W} (h : Le w w') (hg : Guarded w) : Guarded w' := by
+  induction w generalizing w' with
+  | res => exact hg.elim
+  | safe k fl i ih =>
+    cases w' <;> try exact h.elim
+    rcases hg with hg | hg
+    · exact Or.inl ((le_isRes h.2.2).trans hg)
+    · exact Or.inr (ih h.2.2 hg)
+  | deleg i ih =>
+    cases w' <;> try exact h.elim
+    simp only [Le] at h
+    have := ih h hg
+    exact this
+  | pair r w ihr ihw =>
+    cases w' <;> try exact h.elim
+    exact ⟨ihr h.1 hg.1, ihw h.2 hg.2⟩
+
+theorem sub_nil (w : W) : sub w [] = some w := by cases w <;> rfl
+
+theorem le_sub {w w' : W} (h : Le w w') {p : Path} {t : W} (hs : sub w p = some t) :
+    ∃ t', sub w' p = some t' ∧ Le t t' := by
+  induction w generalizing w' p with
+  | res =>
+    cases p with
+    | nil => simp [sub] at hs; subst hs; exact ⟨w', sub_nil w', h⟩
+    | cons b p => simp [sub] at hs
+  | safe k fl i ih =>
+    cases p with
+    | nil => simp [sub] at hs; subst hs; exact ⟨w', sub_nil w', h⟩
+    | cons b p =>
+      cases w' <;> try exact h.elim
+      cases b
+      · exact ih h.2.2 hs
+      · simp [sub] at hs
+  | deleg i ih =>
+    cases p with
+    | nil => simp [sub] at hs; subst hs; exact ⟨w', sub_nil w', h⟩
+    | cons b p =>
+      cases w' <;> try exact h.elim
+      cases b
+      · exact ih h hs
+      · simp [sub] at hs
+  | pair r w ihr ihw =>
+    cases p with
+    | nil => simp [sub] at hs; subst hs; exact ⟨w', sub_nil w', h⟩
+    | cons b p =>
+      cases w' <;> try exact h.elim
+      cases b
+      · exact ihr h.1 hs
+      · exact ihw h.2 hs
+
+/-- a closed subtree stays closed in every later state that satisfies the invariant -/
+theorem done_le {t t' : W} (hd : Done t) (h : Le t t') (hi : Inv t') : Done t' := by
+  induction t generalizing t' with
+  | res id hh f c =>
+    cases t' <;> try exact h.elim
+    have h1 : c = 1 := hd
+    have h2 := h.2.2.2
+    have h3 : _ ≤ 1 := hi
+    subst h1
+    exact Nat.le_antisymm h3 h2
+  | safe k fl i ih =>
+    cases t' <;> try exact h.elim
+    exact ⟨h.2.1 hd.1, ih hd.2 h.2.2 hi.1⟩
+  | deleg i ih =>
+    cases t' <;> try exact h.elim
+    simp only [Le] at h
+    have := ih hd h hi
+    exact this
+  | pair r w ihr ihw =>
+    cases t' <;> try exact h.elim
+    exact ⟨ihr hd.1 h.1 hi.1, ihw hd.2 h.2 hi.2⟩
+
+/-! ### objects at a path -/
+
+theorem wrapperAt_iff {w : W} {p : Path} :
+    wrapperAt w p = true ↔ ∃ t, sub w p = some t ∧ isRes t = false := by
+  unfold wrapperAt
+  cases h : sub w p with
+  | none => simp
+  | some t => simp
+
+theorem sub_inv {w : W} (hi : Inv w) {p : Path} {t : W} (hs : sub w p = some t) : Inv t := by
+  induction w generalizing p with
+  | res =>
+    cases p with
+    | nil => simp [sub] at hs; subst hs; exact hi
+    | cons b p => simp [sub] at hs
+  | safe k fl i ih =>
+    cases p with
+    | nil => simp [sub] at hs; subst hs; exact hi
+    | cons b p =>
+      cases b
+      · exact ih hi.1 hs
+      · simp [sub] at hs
+  | deleg i ih =>
+    cases p with
+    | nil => simp [sub] at hs; subst hs; exact hi
+    | cons b p =>
+      cases b
+      · exact ih hi hs
+      · simp [sub] at hs
+  | pair r w ihr ihw =>
+    cases p with
+    | nil => simp [sub] at hs; subst hs; exact hi
+    | cons b p =>
+      cases b
+      · exact ihr hi.1 hs
+      · exact ihw hi.2 hs
+
+theorem sub_done {w : W} (hd : Done w) {p : Path} {t : W} (hs : sub w p = some t) : Done t := by
+  induction w generalizing p with
+  | res =>
+    cases p with
+    | nil => simp [sub] at hs; subst hs; exact hd
+    | cons b p => simp [sub] at hs
+  | safe k fl i ih =>
+    cases p with
+    | nil => simp [sub] at hs; subst hs; exact hd
+    | cons b p =>
+      cases b
+      · exact ih hd.2 hs
+      · simp [sub] at hs
+  | deleg i ih =>
+    cases p with
+    | nil => simp [sub] at hs; subst hs; exact hd
+    | cons b p =>
+      cases b
+      · exact ih hd hs
+      · simp [sub] at hs
+  | pair r w ihr ihw =>
+    cases p with
+    | nil => simp [sub] at hs; subst hs; exact hd
+    | cons b p =>
+      cases b
+      · exact ihr hd.1 hs
+      · exact ihw hd.2 hs
+
+theorem sub_guarded {w : W} (hg : RG w) {p : Path} {t : W} (hs : sub w p = some t)
+    (hn : isRes t = false) : Guarded t := by
+  induction w generalizing p with
+  | res =>
+    cases p with
+    | nil => simp [sub] at hs; subst hs; simp [isRes] at hn
+    | cons b p => simp [sub] at hs
+  | safe k fl i ih =>
+    have h := rg_not_res hg rfl
+    cases p with
+    | nil => simp [sub] at hs; subst hs; exact h
+    | cons b p =>
+      cases b
+      · exact ih h hs
+      · simp [sub] at hs
+  | deleg i ih =>
+    have h := rg_not_res hg rfl
+    cases p with
+    | nil => simp [sub] at hs; subst hs; exact h
+    | cons b p =>
+      cases b
+      · exact ih (Or.inr h) hs
+      · simp [sub] at hs
+  | pair r w ihr ihw =>
+    have h := rg_not_res hg rfl
+    cases p with
+    | nil => simp [sub] at hs; subst hs; exact h
+    | cons b p =>
+      cases b
+      · exact ihr (Or.inr h.1) hs
+      · exact ihw (Or.inr h.2) hs
+
+/-- a `Close` that changes nothing on the object changes nothing on the tree -/
+theorem closeAt_fix (cj : Bool) {w : W} {p : Path} {t : W} (hs : sub w p = some t)
+    (hc : closeG cj t = (t, true)) : closeAtG cj w p = (w, true) := by
+  induction w generalizing p with
+  | res =>
+    cases p with
+    | nil => simp [sub] at hs; subst hs; exact hc
+    | cons b p => simp [sub] at hs
+  | safe k fl i ih =>
+    cases p with
+    | nil => simp [sub] at hs; subst hs; exact hc
+    | cons b p =>
+      cases b
+      · simp [closeAtG, ih hs]
+      · simp [sub] at hs
+  | deleg i ih =>
+    cases p with
+    | nil => simp [sub] at hs; subst hs; exact hc
+    | cons b p =>
+      cases b
+      · simp [closeAtG, ih hs]
+      · simp [sub] at hs
+  | pair r w ihr ihw =>
+    cases p with
+    | nil => simp [sub] at hs; subst hs; exact hc
+    | cons b p =>
+      cases b
+      · simp [closeAtG, ihr hs]
+      · simp [closeAtG, ihw hs]
+
+/-- closing at a path keeps the invariant of the whole tree and leaves the addressed subtree closed -/
+theorem closeAt_inv {w : W} (hi : Inv w) (hg : RG w) {p : Path} (hv : wrapperAt w p = true) :
+    Inv (closeAtG true w p).1 ∧ ∃ t, sub (closeAtG true w p).1 p = some t ∧ Done t := by
+  obtain ⟨t0, hs0, hn0⟩ := wrapperAt_iff.mp hv
+  induction w generalizing p with
+  | res =>
+    cases p with
+    | nil => simp [sub] at hs0; subst hs0; simp [isRes] at hn0
+    | cons b p => simp [sub] at hs0
+  | safe k fl i ih =>
+    have h : RG i := rg_not_res hg rfl
+    cases p with
+    | nil =>
+      have := close_done_inv hi hg trivial
+      exact ⟨this.2, _, sub_nil _, this.1⟩
+    | cons b p =>
+      cases b
+      · have hs0' : sub i p = some t0 := hs0
+        have hv' : wrapperAt i p = true := wrapperAt_iff.mpr ⟨t0, hs0', hn0⟩
+        have hr := ih hi.1 h hv' hs0'
+        have hni : isRes i = false := by
+          cases i <;> first | rfl | (cases p <;> simp [sub] at hs0' ; subst hs0'; simp [isRes] at hn0)
+        have hgi := rg_not_res h hni
+        refine ⟨⟨hr.1, ?_, ?_⟩, hr.2⟩
+        · intro e
+          have hd := hi.2.1 e
+          have : closeAtG true i p = (i, true) :=
+            closeAt_fix true hs0' (done_close (sub_guarded h hs0' hn0) (sub_done hd hs0'))
+          rw [this]; exact hd
+        · intro _
+          exact cnt0_of_not_res ((le_isRes (closeAt_le true i p)).trans hni)
+      · simp [sub] at hs0
+  | deleg i ih =>
+    have h := rg_not_res hg rfl
+    cases p with
+    | nil =>
+      have := close_done_inv hi hg trivial
+      exact ⟨this.2, _, sub_nil _, this.1⟩
+    | cons b p =>
+      cases b
+      · have hs0' : sub i p = some t0 := hs0
+        exact ih hi (Or.inr h) (wrapperAt_iff.mpr ⟨t0, hs0', hn0⟩) hs0'
+      · simp [sub] at hs0
+  | pair r w ihr ihw =>
+    have h := rg_not_res hg rfl
+    cases p with
+    | nil =>
+      have := close_done_inv hi hg trivial
+      exact ⟨this.2, _, sub_nil _, this.1⟩
+    | cons b p =>
+      cases b
+      · have hs0' : sub r p = some t0 := hs0
+        have hr := ihr hi.1 (Or.inr h.1) (wrapperAt_iff.mpr ⟨t0, hs0', hn0⟩) hs0'
+        exact ⟨⟨hr.1, hi.2⟩, hr.2⟩
+      · have hs0' : sub w p = some t0 := hs0
+        have hr := ihw hi.2 (Or.inr h.2) (wrapperAt_iff.mpr ⟨t0, hs0', hn0⟩) hs0'
+        exact ⟨⟨hi.1, hr.1⟩, hr.2⟩
+
+/-! ### counts -/
 
 theorem fresh_counts {w : W} (hf : Fresh w) : ∀ c ∈ counts w, c = 0 := by
   induction w with
@@ -152,23 +515,45 @@ theorem done_counts {w : W} (hd : Done w) : ∀ c ∈ counts w, c = 1 := by
     · exact ihr hd.1 x h
     · exact ihw hd.2 x h
 
+theorem inv_counts {w : W} (hi : Inv w) : ∀ c ∈ counts w, c ≤ 1 := by
+  induction w with
+  | res id h f c => intro x hx; simp [counts] at hx; rw [hx]; exact hi
+  | safe k flag i ih => exact ih hi.1
+  | deleg i ih => exact ih hi
+  | pair r w ihr ihw =>
+    intro x hx
+    simp [counts] at hx
+    rcases hx with h | h
+    · exact ihr hi.1 x h
+    · exact ihw hi.2 x h
+
+/-! ### the initial state -/
+
+theorem fresh_inv {w : W} (hf : Fresh w) : Inv w := by
+  induction w with
+  | res id h f c => have : c = 0 := hf; subst this; exact Nat.zero_le 1
+  | safe k fl i ih =>
+    refine ⟨ih hf.2, fun e => ?_, fun _ => ?_⟩
+    · rw [hf.1] at e; cases e
+    · cases i <;> first | exact hf.2 | trivial
+  | deleg i ih => exact ih hf
+  | pair r w ihr ihw => exact ⟨ihr hf.1, ihw hf.2⟩
+
 theorem mkSafe_fresh {k : Kind} {w : W} (hf : Fresh w) : Fresh (mkSafe k w) := by
   cases w with
   | safe k' f i =>
-    simp only [mkSafe]; split
+    simp only [mkSafe, mkSafeP]; split
     · exact hf
     · exact ⟨rfl, hf⟩
   | res => exact ⟨rfl, hf⟩
   | deleg => exact ⟨rfl, hf⟩
   | pair => exact ⟨rfl, hf⟩
 
-theorem mkSafe_guarded {k : Kind} {w : W} (h : isRes w = true ∨ Guarded w) : Guarded (mkSafe k w) := by
+theorem mkSafe_guarded {k : Kind} {w : W} (h : RG w) : Guarded (mkSafe k w) := by
   cases w with
   | safe k' f i =>
-    simp only [mkSafe]; split
-    · rcases h with h | h
-      · simp [isRes] at h
-      · exact h
+    simp only [mkSafe, mkSafeP]; split
+    · exact rg_not_res h rfl
     · exact h
   | res => exact h
   | deleg => exact h
@@ -183,7 +568,7 @@ theorem build_fresh (d : Desc) : Fresh (build d) := by
   | sim d ih => exact mkSafe_fresh ih
   | strm d ih => exact mkSafe_fresh ih
 
-theorem build_res_or_guarded (d : Desc) : isRes (build d) = true ∨ Guarded (build d) := by
+theorem build_rg (d : Desc) : RG (build d) := by
   induction d with
   | res => left; rfl
   | safe k d ih => right; exact mkSafe_guarded ih
@@ -193,13 +578,260 @@ theorem build_res_or_guarded (d : Desc) : isRes (build d) = true ∨ Guarded (bu
   | strm d ih => right; exact mkSafe_guarded ih
 
 theorem build_guarded (d : Desc) (hw : d.isWrapper = true) : Guarded (build d) := by
-  rcases build_res_or_guarded d with h | h
-  · cases d <;> simp [Desc.isWrapper] at hw
-    all_goals (first | (simp [build, isRes] at h; done) | skip)
-    all_goals exact (by
-      first
-        | exact mkSafe_guarded (build_res_or_guarded _)
-        | exact ⟨mkSafe_guarded (build_res_or_guarded _), mkSafe_guarded (build_res_or_guarded _)⟩)
-  · exact h
+  cases d with
+  | res => simp [Desc.isWrapper] at hw
+  | safe k d => exact mkSafe_guarded (build_rg d)
+  | named k d => exact mkSafe_guarded (build_rg d)
+  | pair r w => exact ⟨mkSafe_guarded (build_rg r), mkSafe_guarded (build_rg w)⟩
+  | sim d => exact mkSafe_guarded (build_rg d)
+  | strm d => exact mkSafe_guarded (build_rg d)
+
+/-! ### flags: who can set them -/
+
+/-- `q` is a prefix of `f` -/
+def pre : Path → Path → Bool
+  | [], _ => true
+  | _ :: _, [] => false
+  | a :: q, b :: f => a == b && pre q f
+
+/-- the closed flag of the Safe* object at a path -/
+def flagAt (w : W) (f : Path) : Option Bool :=
+  match sub w f with
+  | some (.safe _ fl _) => some fl
+  | _ => none
+
+/-- the Safe* objects (relative paths) whose flags make up an object's status: a Safe* object
+    itself, the embedded one of a delegating wrapper, both halves of a pair -/
+def deps : W → List Path
+  | .res .. => []
+  | .safe .. => [[]]
+  | .deleg i => (deps i).map (false :: ·)
+  | .pair r w => (deps r).map (false :: ·) ++ (deps w).map (true :: ·)
+
+theorem flagAt_cons_safe (k fl i b f) : flagAt (.safe k fl i) (b :: f) = if b then none else flagAt i f := by
+  cases b <;> simp [flagAt, sub]
+
+theorem flagAt_cons_deleg (i b f) : flagAt (.deleg i) (b :: f) = if b then none else flagAt i f := by
+  cases b <;> simp [flagAt, sub]
+
+theorem flagAt_cons_pair (r w b f) : flagAt (.pair r w) (b :: f) = if b then flagAt w f else flagAt r f := by
+  cases b <;> simp [flagAt, sub]
+
+/-- a `Close` addressed to `q` leaves alone every flag that is neither at nor below `q` -/
+theorem closeAt_flag (cj : Bool) (w : W) (q f : Path) (h : pre q f = false) :
+    flagAt (closeAtG cj w q).1 f = flagAt w f := by
+  induction w generalizing q f with
+  | res =>
+    cases q with
+    | nil => simp [pre] at h
+    | cons a q => cases a <;> rfl
+  | safe k fl i ih =>
+    cases q with
+    | nil => simp [pre] at h
+    | cons a q =>
+      cases a
+      · cases f with
+        | nil => simp [closeAtG, flagAt, sub]
+        | cons b f =>
+          cases b
+          · simp only [closeAtG, flagAt_cons_safe]
+            exact ih q f (by simpa [pre] using h)
+          · simp [closeAtG, flagAt_cons_safe]
+      · rfl
+  | deleg i ih =>
+    cases q with
+    | nil => simp [pre] at h
+    | cons a q =>
+      cases a
+      · cases f with
+        | nil => simp [closeAtG, flagAt, sub]
+        | cons b f =>
+          cases b
+          · simp only [closeAtG, flagAt_cons_deleg]
+            exact ih q f (by simpa [pre] using h)
+          · simp [closeAtG, flagAt_cons_deleg]
+      · rfl
+  | pair r w ihr ihw =>
+    cases q with
+    | nil => simp [pre] at h
+    | cons a q =>
+      cases f with
+      | nil => cases a <;> simp [closeAtG, flagAt, sub]
+      | cons b f =>
+        cases a <;> cases b
+        · simp only [closeAtG, flagAt_cons_pair]
+          exact ihr q f (by simpa [pre] using h)
+        · simp [closeAtG, flagAt_cons_pair]
+        · simp [closeAtG, flagAt_cons_pair]
+        · simp only [closeAtG, flagAt_cons_pair]
+          exact ihw q f (by simpa [pre] using h)
+
+theorem flagAt_append {w t : W} {p : Path} (hs : sub w p = some t) (f : Path) :
+    flagAt w (p ++ f) = flagAt t f := by
+  induction w generalizing p with
+  | res =>
+    cases p with
+    | nil => simp [sub] at hs; subst hs; rfl
+    | cons b p => simp [sub] at hs
+  | safe k fl i ih =>
+    cases p with
+    | nil => simp [sub] at hs; subst hs; rfl
+    | cons b p =>
+      cases b
+      · simp only [List.cons_append, flagAt_cons_safe]; exact ih hs
+      · simp [sub] at hs
+  | deleg i ih =>
+    cases p with
+    | nil => simp [sub] at hs; subst hs; rfl
+    | cons b p =>
+      cases b
+      · simp only [List.cons_append, flagAt_cons_deleg]; exact ih hs
+      · simp [sub] at hs
+  | pair r w ihr ihw =>
+    cases p with
+    | nil => simp [sub] at hs; subst hs; rfl
+    | cons b p =>
+      cases b
+      · simp only [List.cons_append, flagAt_cons_pair]; exact ihr hs
+      · simp only [List.cons_append, flagAt_cons_pair]; exact ihw hs
+
+theorem fresh_flagAt {w : W} (hf : Fresh w) {f : Path} {fl : Bool} (h : flagAt w f = some fl) :
+    fl = false := by
+  induction w generalizing f with
+  | res => cases f <;> simp [flagAt, sub] at h
+  | safe k fl' i ih =>
+    cases f with
+    | nil => simp [flagAt, sub] at h; rw [← h]; exact hf.1
+    | cons b f =>
+      rw [flagAt_cons_safe] at h
+      cases b
+      · exact ih hf.2 h
+      · simp at h
+  | deleg i ih =>
+    cases f with
+    | nil => simp [flagAt, sub] at h
+    | cons b f =>
+      rw [flagAt_cons_deleg] at h
+      cases b
+      · exact ih hf h
+      · simp at h
+  | pair r w ihr ihw =>
+    cases f with
+    | nil => simp [flagAt, sub] at h
+    | cons b f =>
+      rw [flagAt_cons_pair] at h
+      cases b
+      · exact ihr hf.1 h
+      · exact ihw hf.2 h
+
+theorem deps_flag {t : W} {f : Path} (hf : f ∈ deps t) : ∃ fl, flagAt t f = some fl := by
+  induction t generalizing f with
+  | res => simp [deps] at hf
+  | safe k fl i _ => simp [deps] at hf; subst hf; exact ⟨fl, rfl⟩
+  | deleg i ih =>
+    simp [deps] at hf
+    obtain ⟨g, hg, rfl⟩ := hf
+    simpa [flagAt_cons_deleg] using ih hg
+  | pair r w ihr ihw =>
+    simp [deps] at hf
+    rcases hf with ⟨g, hg, rfl⟩ | ⟨g, hg, rfl⟩
+    · simpa [flagAt_cons_pair] using ihr hg
+    · simpa [flagAt_cons_pair] using ihw hg
+
+/-- one of the flags that make up the status is not set ⇒ `Closed()` answers false -/
+theorem closedQ_false_of_flag {t : W} {f : Path} (hf : f ∈ deps t) (h : flagAt t f = some false) :
+    closedQG true t = some false := by
+  induction t generalizing f with
+  | res => simp [deps] at hf
+  | safe k fl i _ =>
+    simp [deps] at hf; subst hf
+    simp [flagAt, sub] at h
+    simp [closedQG, h]
+  | deleg i ih =>
+    simp [deps] at hf
+    obtain ⟨g, hg, rfl⟩ := hf
+    rw [flagAt_cons_deleg] at h
+    exact ih hg (by simpa using h)
+  | pair r w ihr ihw =>
+    simp [deps] at hf
+    rcases hf with ⟨g, hg, rfl⟩ | ⟨g, hg, rfl⟩
+    · rw [flagAt_cons_pair] at h
+      have := ihr hg (by simpa using h)
+      simp [closedQG, this]
+    · rw [flagAt_cons_pair] at h
+      have := ihw hg (by simpa using h)
+      simp [closedQG, this]
+
+/-! ### runs of path-addressed ops -/
+
+def ValidP (w : W) (ops : List (Path × Op)) : Prop := ∀ o ∈ ops, wrapperAt w o.1 = true
+
+theorem le_wrapperAt {w w' : W} (h : Le w w') {p : Path} (hv : wrapperAt w p = true) :
+    wrapperAt w' p = true := by
+  obtain ⟨t, hs, hn⟩ := wrapperAt_iff.mp hv
+  obtain ⟨t', hs', hl⟩ := le_sub h hs
+  exact wrapperAt_iff.mpr ⟨t', hs', (le_isRes hl).trans hn⟩
+
+theorem le_validP {w w' : W} (h : Le w w') {ops : List (Path × Op)} (hv : ValidP w ops) :
+    ValidP w' ops := fun o ho => le_wrapperAt h (hv o ho)
+
+theorem step_le (cj : Bool) (w : W) (p : Path) (op : Op) : Le w (stepAtG cj w p op).1 := by
+  cases op <;> first | exact closeAt_le cj w p | exact le_refl w
+
+theorem step_inv {w : W} (hi : Inv w) (hg : Guarded w) {p : Path} (hv : wrapperAt w p = true)
+    (op : Op) : Inv (stepAtG true w p op).1 := by
+  cases op <;> first | exact (closeAt_inv hi (Or.inr hg) hv).1 | exact hi
+
+theorem runP_inv {w : W} (hi : Inv w) (hg : Guarded w) (ops : List (Path × Op)) (hv : ValidP w ops) :
+    Inv (runPG true w ops).1 ∧ Guarded (runPG true w ops).1 ∧ Le w (runPG true w ops).1 := by
+  induction ops generalizing w with
+  | nil => exact ⟨hi, hg, le_refl w⟩
+  | cons o ops ih =>
+    have hl := step_le true w o.1 o.2
+    have h1 := step_inv hi hg (hv o (by simp)) o.2
+    have h2 := le_guarded hl hg
+    have h3 : ValidP (stepAtG true w o.1 o.2).1 ops :=
+      le_validP hl (fun x hx => hv x (by simp [hx]))
+    have := ih h1 h2 h3
+    exact ⟨this.1, this.2.1, le_trans hl this.2.2⟩
+
+theorem runP_append (cj : Bool) (w : W) (a b : List (Path × Op)) :
+    (runPG cj w (a ++ b)).1 = (runPG cj (runPG cj w a).1 b).1 := by
+  induction a generalizing w with
+  | nil => rfl
+  | cons op a ih => simp [runPG, ih]
+
+theorem runP_append_out (cj : Bool) (w : W) (a b : List (Path × Op)) :
+    (runPG cj w (a ++ b)).2 = (runPG cj w a).2 ++ (runPG cj (runPG cj w a).1 b).2 := by
+  induction a generalizing w with
+  | nil => rfl
+  | cons op a ih => simp [runPG, ih]
+
+/-- a flag not at or below any `Close` of the run is what it was -/
+theorem runP_flag (cj : Bool) (w : W) (ops : List (Path × Op)) (f : Path)
+    (h : ∀ o ∈ ops, o.2 = Op.close → pre o.1 f = false) :
+    flagAt (runPG cj w ops).1 f = flagAt w f := by
+  induction ops generalizing w with
+  | nil => rfl
+  | cons o ops ih =>
+    have h2 : ∀ x ∈ ops, x.2 = Op.close → pre x.1 f = false := fun x hx => h x (by simp [hx])
+    simp only [runPG]
+    rw [ih _ h2]
+    obtain ⟨p, op⟩ := o
+    cases op <;> first
+      | exact closeAt_flag cj w p f (h (p, Op.close) (by simp) rfl)
+      | rfl
+
+theorem runP_noclose_fresh (cj : Bool) {w : W} (hf : Fresh w) (ops : List (Path × Op))
+    (hn : ∀ o ∈ ops, o.2 ≠ Op.close) : Fresh (runPG cj w ops).1 := by
+  induction ops generalizing w with
+  | nil => exact hf
+  | cons o ops ih =>
+    have h1 := hn o (by simp)
+    have h2 : ∀ x ∈ ops, x.2 ≠ Op.close := fun x hx => hn x (by simp [hx])
+    obtain ⟨p, op⟩ := o
+    have : (stepAtG cj w p op).1 = w := by cases op <;> first | exact absurd rfl h1 | rfl
+    simp only [runPG, this]
+    exact ih hf h2
 
 end SA.Wrappers
